@@ -380,11 +380,12 @@ def combinator_settings(ctx):
 
 @rule('C15.h', min_instances=1)
 def constraint_as_penalty_measures_the_displacement(ctx):
-    """as_penalty turns a constraints solver into the condition rnorm(x) = sqrt(sum_i (constraint(x)[i] - x[i])**2), zero exactly where the solver leaves x alone: the closure agrees, path for path and with casts kept visible, with that definition (a cast of the constrained values to the type of x truncates them for integer-valued points, so an infeasible point measures zero)"""
+    """as_penalty turns a constraints solver into the condition rnorm(x) = sqrt(sum_i (constraint(x)[i] - x[i])**2), zero exactly where the solver leaves x alone, with the solver applied to a COPY of x (the generated constraints work in place; applied to x itself the difference is always zero): the closure agrees, path for path and with casts kept visible, with that definition (a cast of the constrained values to the type of x truncates them for integer-valued points, so an infeasible point measures zero)"""
     f = ctx.func('mystic.constraints:as_penalty.rnorm')
     ref = '''def rnorm(x, *argz, **kwdz):
     error = 0.0
-    constrained = constraint(x, *argz, **kwdz)
+    from copy import copy
+    constrained = constraint(copy(x), *argz, **kwdz)
     for i in range(len(x)):
         error += (constrained[i] - x[i])**2
     error = error**0.5
